@@ -467,12 +467,23 @@ std::string project(const ak::ContentPtr& c, const JV& step) {
   out += ",\"scalar\":" + std::string(isscalar ? "1" : "0");
   out += ",\"cls\":" + jstr(c->classname());
   if (!isscalar) out += ",\"len\":" + jint(c->length());
-  if (wants(step, "json", true)) {
+  // an array that fails its own validity check is reported as such and NOT read any further, unless the step asks for
+  // it explicitly (C12 phase "arbitrary layouts x print/convert")
+  bool readable = true;
+  if (!isscalar && wants(step, "valid", true) && !wants(step, "json_even_if_invalid", false)) {
+    try { readable = c->validityerror("layout").empty(); } catch (std::exception&) { readable = false; }
+  }
+  if (wants(step, "json", true) && readable) {
     try { out += ",\"json\":" + jstr(c->tojson(false, -1, "nan", "inf", "-inf", "re", "im")); }
     catch (std::exception& e) { out += ",\"json_exc\":" + jstr(firstline(e.what())); }
   }
-  if (wants(step, "type", true)) {
-    try { out += ",\"type\":" + jstr(c->type(ak::util::TypeStrs())->tostring()); }
+  if (!readable) out += ",\"json_skipped\":1";
+  // a scalar result (0-dimensional NumpyArray, Record, None) is converted to a Python object by the bindings before
+  // anything else can be asked of it; form()/type() of a 0-dimensional NumpyArray are not reachable from Python
+  bool zerodim = false;
+  if (const ak::NumpyArray* np = dynamic_cast<const ak::NumpyArray*>(c.get())) zerodim = np->shape().empty();
+  if (wants(step, "type", true) && !zerodim) {
+    try { out += ",\"type\":" + jstr(c->type(default_typestrs())->tostring()); }
     catch (std::exception& e) { out += ",\"type_exc\":" + jstr(firstline(e.what())); }
   }
   if (wants(step, "valid", true) && !isscalar) {
@@ -480,12 +491,12 @@ std::string project(const ak::ContentPtr& c, const JV& step) {
     catch (std::exception& e) { out += ",\"valid_exc\":" + jstr(firstline(e.what())); }
   }
   if (wants(step, "layout", false)) out += ",\"layout\":" + dumplayout(c);
-  if (wants(step, "digest", false)) out += ",\"digest\":" + jstr(digest(c));
-  if (wants(step, "form", false)) {
+  if (wants(step, "digest", false) && readable) out += ",\"digest\":" + jstr(digest(c));
+  if (wants(step, "form", false) && !zerodim) {
     try { out += ",\"form\":" + jstr(c->form(true)->tojson(false, true)); }
     catch (std::exception& e) { out += ",\"form_exc\":" + jstr(firstline(e.what())); }
   }
-  if (wants(step, "depth", false)) {
+  if (wants(step, "depth", false) && !zerodim) {
     try {
       std::pair<int64_t, int64_t> mm = c->minmax_depth();
       std::pair<bool, int64_t> bd = c->branch_depth();
@@ -618,7 +629,10 @@ static ak::ContentPtr op_content(const std::string& op, const JV& st, Session& S
   if (op == "setitem_field") {
     ak::ContentPtr what = S.get(gets(st, "what", ""));
     std::string where = gets(st, "where", "");
-    if (TRYCAST(ak::RecordArray, r)) return r->setitem_field(where, what);
+    if (TRYCAST(ak::RecordArray, r)) {
+      if (st.HasMember("wherei")) return r->setitem_field(geti(st, "wherei", 0), what);
+      return r->setitem_field(where, what);
+    }
     throw HarnessError("setitem_field on non-record");
   }
   // ---- class-specific conversions
@@ -696,8 +710,8 @@ static ak::ContentPtr op_content(const std::string& op, const JV& st, Session& S
     ak::FormPtr g = ak::Form::fromjson(j1);
     std::string j2 = g->tojson(false, true);
     bool eq = f->equal(g, true, true, true, false);
-    std::string tf = f->type(ak::util::TypeStrs())->tostring();
-    std::string tl = src->type(ak::util::TypeStrs())->tostring();
+    std::string tf = f->type(default_typestrs())->tostring();
+    std::string tl = src->type(default_typestrs())->tostring();
     extra = ",\"form1\":" + jstr(j1) + ",\"form2\":" + jstr(j2) + ",\"formequal\":" + (eq ? "1" : "0")
           + ",\"type_from_form\":" + jstr(tf) + ",\"type_from_layout\":" + jstr(tl);
     return src;
@@ -724,7 +738,15 @@ static std::string run_step(const JV& st, Session& S) {
     ak::ContentPtr out = op_content(op, st, S, handled, extra);
     if (!handled) throw HarnessError("unknown op '" + op + "'");
     std::string dst = gets(st, "dst", "");
-    if (!dst.empty()) S.regs[dst] = out;
+    // a scalar result becomes a Python object in the bindings: it is never available as an array operand again
+    // nor is a result that fails the validity check ever used as an operand (it is reported, not operated on)
+    if (!dst.empty()) {
+      bool keep = !out->isscalar();
+      if (keep && geti(st, "keep_only_valid", 0) != 0) {
+        try { keep = out->validityerror("layout").empty(); } catch (std::exception&) { keep = false; }
+      }
+      if (keep) S.regs[dst] = out; else S.regs.erase(dst);
+    }
     return "{" + project(out, st) + extra + "}";
   }
   catch (HarnessError& e) { return "{\"ok\":-1,\"harness\":" + jstr(e.what()) + "}"; }
